@@ -1,6 +1,6 @@
 CONSTANTS Carriers = {"vps", "p1"} Vals = {"a", "b"} Labels = {"p"} Times = {"t"} Bads = {}
   WssWords = {} MaxRecv = 5 UnknownOnce = TRUE XdsGuard = TRUE Calls = {}
-  Handlers = {"h1", "h2"} InitMasks = {{"NETWORK", "NETWORK_ID", "PROG_ID", "LOCAL_TIME", "ASPECT", "TTX_PAGE", "CAPTION"}, {"NETWORK_ID", "TTX_PAGE"}} RegMasks = {{"CAPTION"}, {"PROG_ID", "LOCAL_TIME"}, {"NETWORK"}} Apis = {"add"} MaxReg = 2 CdLen = 40 IdleSteps = {} MaxGap = 0 MaxIdle = 0
+  Handlers = {"h1"} InitMasks = {{"NETWORK", "NETWORK_ID", "PROG_ID", "LOCAL_TIME", "ASPECT", "TTX_PAGE", "CAPTION"}} RegMasks = {} Apis = {"reg"} MaxReg = 0 CdLen = 40 IdleSteps = {1, 38, 40} MaxGap = 1 MaxIdle = 2
 SPECIFICATION GSpec
 VIEW gview
 INVARIANTS Dump TypeOK Faithful
